@@ -525,6 +525,7 @@ def _drive(script):
 
   def on_alarm(_sig, _frm):
     hang[0] = True
+    loop._budget = 0      # if the hub swallows the exception it still hands control back at once
     raise Hang()
 
   def guard(what, fn, *args):
@@ -713,12 +714,17 @@ def _drive(script):
   # CPU-time watchdog: a livelock in the code under test (possible in a defective tree) ends the
   # case; what was recorded so far is judged.  Independent of machine load.
   signal.signal(signal.SIGVTALRM, on_alarm)
-  signal.setitimer(signal.ITIMER_VIRTUAL, WATCHDOG_CPU_S, 1.0)
+  signal.setitimer(signal.ITIMER_VIRTUAL, WATCHDOG_CPU_S, 0.2)
   try:
     for op in script['ops']:
       if hang[0]:
         break
-      do_op(op)
+      try:
+        do_op(op)
+      except RuntimeError:
+        if not hang[0]:
+          raise
+        break
       end()
       if op[0] != 'settle' and loop.idle_now():
         q_event()       # nothing can run at this instant: a quiescent point
